@@ -468,3 +468,9 @@ def replay(case, acc):
 
 def unit_test(case):
     return "# month value / middleware(s) / mode: " + repr(case) + "\n"
+
+
+def ENV_SHARDS(tier):
+    """The broad, cheap families: run again in a fresh interpreter per environment (engine.run_environments)."""
+    return [s for s in shards('quick') if s[0] != "construction"]
+
